@@ -115,8 +115,16 @@ func (a *AST) computeFollows(n Node) {
 	switch v := n.(type) {
 	case *Concat:
 		for i := 0; i < len(v.Exprs)-1; i++ {
-			for _, p := range v.Exprs[i].lastPos() {
-				a.follows[p] = append(a.follows[p], v.Exprs[i+1].firstPos()...)
+			// The last positions of an operand are followed by the first positions of the next operands,
+			// up to and including the first one that is not nullable.
+			for j := i + 1; j < len(v.Exprs); j++ {
+				for _, p := range v.Exprs[i].lastPos() {
+					a.follows[p] = append(a.follows[p], v.Exprs[j].firstPos()...)
+				}
+
+				if !v.Exprs[j].nullable() {
+					break
+				}
 			}
 		}
 
